@@ -2,6 +2,9 @@
 package props
 
 import (
+	"sort"
+	"strings"
+
 	"verif/internal/load"
 	"verif/internal/report"
 )
@@ -45,6 +48,23 @@ func Get(id string) *Prop {
 		p.Run(c)
 		for _, f := range extras[id] {
 			f(c)
+		}
+		// rules added after the main rule set was written are described in DESIGN.md 4.37;
+		// name them in the evidence so that the explanation covers every rule that ran
+		seen := map[string]bool{}
+		var more []string
+		for _, o := range c.R.Obls {
+			if seen[o.Rule] || o.Rule == "SELF" {
+				continue
+			}
+			seen[o.Rule] = true
+			if !strings.Contains(c.R.Explanation, o.Rule) {
+				more = append(more, o.Rule)
+			}
+		}
+		if len(more) > 0 {
+			sort.Strings(more)
+			c.R.Explanation += " Further rules, each described in DESIGN.md section 4.37 and in the comment above its function: " + strings.Join(more, ", ") + "."
 		}
 	}
 	return &q
